@@ -182,7 +182,7 @@ Lemma read_chunk_delim sep m k file st D : (1 <= k)%nat -> Inv m file st D ->
 Proof.
   intros Hk HI.
   pose proof (read_chunk_spec true (Delim sep) m k file st D Hk HI) as HG.
-  unfold read_chunk in *. unfold m_is_finished, m_reported, m_lines_after, m_oneline_incomplete, m_oneline_kept, m_size_after, m_header_line, m_plus_line in *.
+  unfold read_chunk in *. unfold m_is_finished, m_reported, m_lines_after, m_incomplete_line, m_pending_incomplete_line, m_oneline_incomplete, m_oneline_kept, m_size_after, m_header_line, m_plus_line in *.
   set (temp0 := match r_prepend st with [] => [] | p => [p] end) in *.
   assert (Ht0 : concat temp0 = r_prepend st ++ []).
   { unfold temp0. destruct (r_prepend st); [reflexivity|]. cbn [concat]. reflexivity. }
@@ -195,9 +195,10 @@ Proof.
   - destruct HA as (Hle & Hle2 & Hcc & Hf1 & Hf2).
     destruct (cut (Delim sep) (concat temp)) as [size nl| | |l] eqn:Ecut; try exact I.
     destruct (cut_delim_ok sep (concat temp) size nl Ecut) as [Hb Hfull].
-    split; [exact Hb|].
-    destruct fin.
-    + cbn [r_finished] in *. intros _. destruct HG as [_ HG]. specialize (HG eq_refl).
+    destruct fin; cbn [andb] in HG |- *.
+    + revert HG. destruct (negb (leftover_ok (Delim sep) (skipn size (concat temp)))); [intros _; exact I|intros HG].
+      split; [exact Hb|].
+      cbn [r_finished] in *. intros _. destruct HG as [_ HG]. specialize (HG eq_refl).
       destruct (HT eq_refl) as [HS Happ]. cbv zeta in HS, Happ.
       set (S := r_prepend st ++ firstn (pos' - r_pos st) (skipn (r_pos st) file)) in *.
       assert (Hchunk : concat temp = S ++ terminator (Delim sep) S).
@@ -210,8 +211,10 @@ Proof.
       assert (Hfile : file <> []) by (rewrite <- HG; destruct (concat D); [exact HS|discriminate]).
       rewrite (norm_text_term sep file Hfile). rewrite <- HG at 2. rewrite (terminator_last _ (concat D) S HS).
       rewrite Hchunk, <- HG, <- app_assoc. reflexivity.
-    + destruct m; cbn [r_finished]; discriminate.
-  - destruct HT as [[Hp Ha]|(S & HS & Ha & Hp & Hcn)]; [split; assumption|].
+    + split; [exact Hb|]. destruct m; cbn [r_finished]; discriminate.
+  - cbn [andb] in HG |- *. revert HG.
+    destruct (negb (leftover_ok (Delim sep) pending)); [intros _; exact I|intros HG].
+    destruct HT as [[Hp Ha]|(S & HS & Ha & Hp & Hcn)]; [split; assumption|].
     exfalso. rewrite Hp, Ha in Hcn. rewrite complete_delim_nl in Hcn; [discriminate|].
     apply term_ends; [reflexivity|exact HS].
 Qed.
